@@ -236,7 +236,8 @@ Init == str = <<>> /\ done = FALSE
 Ch(a) == CASE a = "NL" -> "\n" [] a = "DQ" -> "\"" [] a = "BS" -> "\\" [] OTHER -> a
 Grow == ~done /\ Len(str) < MAXLEN /\ \E c \in ALPHA : str' = Append(str, Ch(c)) /\ UNCHANGED done
 Emit == /\ ~done /\ done' = TRUE /\ UNCHANGED str
-        /\ LET r == Read(str) IN PrintT(ToJson([s |-> str, ok |-> r.ok, trees |-> r.trees, toks |-> [j \in 1..Len(Lex(str)) |-> Lex(str)[j].ty]]))
+        /\ LET r == Read(str) IN PrintT(ToJson([s |-> str, ok |-> r.ok, trees |-> r.trees, toks |-> [j \in 1..Len(Lex(str)) |-> Lex(str)[j].ty],
+                                                         ttx |-> [j \in 1..Len(Lex(str)) |-> Lex(str)[j].tx]]))
 Next == Grow \/ Emit \/ (done /\ UNCHANGED vars)
 Spec == Init /\ [][Next]_vars
 
